@@ -53,6 +53,7 @@ type RegEntry struct {
 	GoField map[int16]string     // field id -> Go field name
 	Tags    map[int16][2]string  // field id -> {name, requiredness word in the thrift tag}
 	Note    string               // why not found / ambiguity
+	TagErrors []string           // disagreements between the thrift struct tags and the schema (name, requiredness)
 }
 
 // UnitInfo is what happened to one unit.
